@@ -610,12 +610,14 @@ func init() {
 		}
 		return nil
 	}
-	// websocket.maskBytes: below 16 bytes the real function is interpreted (no unsafe code is
-	// reached); at or above, the word-wise unsafe implementation is replaced by the byte-wise
-	// semantics of mask_safe.go from the same tree.
+	// websocket.maskBytes is interpreted from source (its word-at-a-time loop runs on the unsafe
+	// pointer model of unsafeptr.go) for buffers below 64 bytes and always in HarnessC13_Mask; for
+	// longer buffers it is summarised by the byte-wise definition, which HarnessC13_Mask shows
+	// equivalent to the real implementation for all contents, keys, positions and alignments up
+	// to its length bound.
 	externals[repoModule+"/websocket.maskBytes"] = func(fr *frame, a []value) value {
 		b := a[2].([]value)
-		if len(b) < 16 {
+		if len(b) < 64 || fr.i.w.ex.cfg.SymAddr {
 			return notHandled{}
 		}
 		i := fr.i
